@@ -81,6 +81,13 @@ def generate(ctx):
                 yield {"kind": "system", "cls": "exhaustive", "vel": (L + pi) % 2 == 0, "coordseed": L * 7 + pi,
                        "species": EXH, "blocks": list(seq), "load": list(perm),
                        "ops": _ops_all(nmol) if pi == 0 else _ops_all(nmol)[:1 + min(2 * nmol + 2, 6)]}
+    # ---- one long run: more than 1024 CONSECUTIVE instances of a multi-residue species (any chunk / buffer
+    # size a reader may use internally is a boundary worth crossing; seed C11-6: iteration in chunks of 1024
+    # with the chunk start counted in molecules instead of residues)
+    for nrun in ([1100] if ctx.quick() else [1023, 1024, 1025, 2100]):
+        yield {"kind": "system", "cls": "long-run", "vel": False, "coordseed": nrun,
+               "species": EXH, "blocks": [0, 0] + [1] * nrun + [2, 0], "load": [1, 0, 2],
+               "ops": [["it"], ["g", 1030], ["g", -1], ["g", 1024], ["s", 1020, 1030, None], ["s", None, None, 257]]}
     # ---- random longer systems
     table = [S_AAA, S_BBB, S_CCC, S_DDD, S_EEE, S_SOL, S_W]
     loadable = [0, 1, 2, 3, 4]
